@@ -2211,8 +2211,11 @@ impl DistributedTxCoordinator {
         })?;
 
         if commit {
-            // Can only commit if all votes are YES
-            if tx.all_yes() || matches!(tx.phase, TxPhase::Prepared | TxPhase::Committing) {
+            // Can only commit if every participant voted YES (or the commit decision was
+            // already taken), and never once the transaction has been decided as aborted
+            let decided_abort = matches!(tx.phase, TxPhase::Aborting | TxPhase::Aborted);
+            let decided_commit = matches!(tx.phase, TxPhase::Prepared | TxPhase::Committing);
+            if !decided_abort && (decided_commit || (tx.all_voted() && tx.all_yes())) {
                 tx.phase = TxPhase::Committing;
                 // Release locks
                 for vote in tx.votes.values() {
@@ -2230,6 +2233,12 @@ impl DistributedTxCoordinator {
                 )));
             }
         } else {
+            // The commit decision is final: it can only be completed, never aborted
+            if matches!(tx.phase, TxPhase::Committing | TxPhase::Committed) {
+                return Err(ChainError::TransactionFailed(format!(
+                    "transaction {tx_id} already decided to commit"
+                )));
+            }
             // Abort the transaction
             tx.phase = TxPhase::Aborting;
             for vote in tx.votes.values() {
